@@ -60,6 +60,14 @@ def case_hier(B, cfg):
     B.fact('top names = population model names',
            names[n_bottom:] == H['pop'].get_parameter_names(),
            repr(names[n_bottom:]))
+    top = hl.get_parameter_names(exclude_bottom_level=True)
+    B.fact('names without the bottom level = the top-level names (as many '
+           'as n_parameters(exclude_bottom_level=True))',
+           list(top) == list(names[n_bottom:]) and len(top) == n_top,
+           '%r vs %d' % (top, n_top))
+    top_ids = hl.get_parameter_names(exclude_bottom_level=True,
+                                     include_ids=True)
+    B.fact('... also with IDs', len(top_ids) == n_top, repr(top_ids))
     try:
         pop_part, psi = hier.spec(B, H, val, uniq)
     except hier.SpecError as e:
@@ -183,6 +191,12 @@ def jobs(tier):
             out.append(('hier', 'case_hier', dict(
                 units=c, n_ids=2, int_vector=True, bare=True,
                 posterior=False), {'diffcheck': False}))
+    # every population parameter fixed (nothing left at the top level)
+    for c in ([U('gaussian_nc'), U('lognormal_nc')], [U('gaussian'),
+                                                      U('lognormal')],
+              [U('gaussian_nc', 2)], [U('lognormal', 1, 1), U('gaussian_nc')]):
+        out.append(('hier', 'case_hier', dict(
+            units=c, n_ids=2, fix_all=True, posterior=False), {}))
     # fixed population parameters
     fix_comps = comps[::5] if tier == 'quick' else comps[::2]
     for j, c in enumerate(fix_comps):
